@@ -37,6 +37,7 @@ package client
 
 //@ func client.(*RpcMultiplexer).registerHandler
 //@   requires[C05.registry C01.registry] c != nil && isclass(c, "client.handlers") && tag(c) == id && !closed(c)
+//@   requires closable(c)
 //@   owns c
 //@   ensures[C05.registered C09.refused_after_failure] result == nil ==> id in rm.handlers && rm.handlers[id] == c
 //@   ensures[C09.refused_after_failure C14.refused_means_unregistered] result != nil ==> len(rm.handlers) == 0 && rm.rErr != nil
@@ -132,6 +133,9 @@ package client
 //@ chanclass[C13.body_nonnil C02.body_nonnil] client.rCh msg: m != nil
 //@ chan H.client.clientStream.rCh class client.rCh
 //@ chan Mval.map_Luint64_Rchan_Pgoatorepo.Rpc class client.handlers
+// reply queues and the per-stream body queue are closed by their owners (closeError / unregister, the read loop)
+//@ chan Mval.map_Luint64_Rchan_Pgoatorepo.Rpc closable
+//@ chan H.client.clientStream.rCh closable
 //@ chan cell.Int._Pgithub.com_avos_io_goat_internal_client.RpcMultiplexer_.NewStreamReadWriter.respChan class client.handlers
 //@ objinv[C13.objinv C02.objinv] client.clientStream : isclass(self.rCh, "client.rCh")
 
